@@ -104,8 +104,9 @@ func GenOT(w *World, maxEdits int, opts ...string) *Scenario {
 	variant := variants[s.Intn(len(variants), "template-variant")]
 	tpl := otTemplate(variant)
 	if hostile {
-		// odd source items: keys/destinations the CRD accepts
-		oddKeys := []string{".data.k", "", "data.k", "{.data.k}", "{.data", ".data.*", ".data.*", ".data[*]", ".data.list[*]", ".data.k.deeper", "..", ".metadata.labels", ".metadata.labels.*", `.metadata.labels[?(@=="never")]`, `.data[?(@.x=="y")]`}
+		// odd source items: keys/destinations the CRD accepts. No wildcard over a map with several entries:
+		// k8s jsonpath walks Go maps in random order there, which no seed controls
+		oddKeys := []string{".data.k", "", "data.k", "{.data.k}", "{.data", ".data.*", ".data.*", ".data[*]", ".data.list[*]", ".data.k.deeper", ".metadata.labels", `.metadata.labels[?(@=="never")]`, `.data[?(@.x=="y")]`}
 		oddDest := []string{".a", "", "a", ".a.b", ".a..b", ".", "..", ".a.0"}
 		for _, sx := range sources {
 			sm := sx.(map[string]any)
